@@ -6,7 +6,7 @@ import impl
 import engine
 import gens
 import exchange as X
-from docs import to_text, E, mos, ro_delete, story_append, story_move, element_action, ref, ready_to_air
+from docs import to_text, E, mos, ro_delete, story_append, story_move, element_action, ref, ready_to_air, ro_replace
 from checks.base import corpus_cases
 
 LEVEL = 'proof'
@@ -50,6 +50,8 @@ def file_pool(rng):
     pool['81-swap3.mos.xml'] = to_text(element_action(81, 'SWAP', None, [[ref('storyID', 'A'), ref('storyID', 'B'), ref('storyID', 'A')]]))
     pool['82-move0.mos.xml'] = to_text(story_move(82, []))
     pool['83-noslug.mos.xml'] = to_text(mos(83, E('roCreate', E('roID', text='RO1'))))
+    pool['84-roreplace.mos.xml'] = to_text(ro_replace(84, [gens.new_story('R1')]))
+    pool['85-itemswap1.mos.xml'] = to_text(element_action(85, 'SWAP', [ref('storyID', 'A')], [[ref('itemID', 'i1')]]))
     pool['90-delete.mos.xml'] = to_text(ro_delete(90))
     pool['a-garbage.mos.xml'] = 'this is not <xml'
     pool['b-unknown.mos.xml'] = '<mos><heartbeat/></mos>'
